@@ -50,11 +50,20 @@ type WorkerResult struct {
 // stall watchdog of crash-prone properties reads it.
 var runStarted atomic.Int64
 
+// currentRun is the run index being executed; on a stall the watchdog writes
+// it to the in-flight note (crash-prone properties write the note before
+// every run, because a fatal runtime error leaves no chance to).
+var currentRun atomic.Int64
+var inflightPath atomic.Value
+
 func startStallWatchdog(limit time.Duration) {
 	go func() {
 		for {
 			time.Sleep(time.Second)
 			if s := runStarted.Load(); s != 0 && time.Now().UnixNano()-s > int64(limit) {
+				if p, ok := inflightPath.Load().(string); ok && p != "" {
+					os.WriteFile(p, []byte(fmt.Sprint(currentRun.Load())), 0o644)
+				}
 				fmt.Fprintf(os.Stderr, "fatal error: hang: run did not finish within %v\n", limit)
 				os.Exit(3)
 			}
@@ -106,6 +115,8 @@ func TestWorker(t *testing.T) {
 		res.WallS = time.Since(start).Seconds()
 		return
 	}
+	inflightPath.Store(job.Out + ".inflight")
+	os.Remove(job.Out + ".inflight")
 	keys := map[uint64]struct{}{}
 	skeys := map[uint64]struct{}{} // distinct schedule signatures (all runs)
 	var pending, spending []byte
@@ -185,10 +196,11 @@ func TestWorker(t *testing.T) {
 		tape := NewTape(job.Seed, job.Property, run)
 		c := prop.Gen(tape, job.Tier, run)
 		x := NewExec(t, tape, res.Stats)
-		// a fatal runtime error or a stall cannot be recovered: leave a note
-		// saying which run was executing
-		os.WriteFile(job.Out+".inflight", []byte(fmt.Sprint(run)), 0o644)
+		// a fatal runtime error or a stall cannot be recovered: note which run
+		// is executing
+		currentRun.Store(int64(run))
 		if crashProne {
+			os.WriteFile(job.Out+".inflight", []byte(fmt.Sprint(run)), 0o644)
 			// ... and checkpoint the statistics so that the runs before a
 			// crash are still accounted for
 			res.NextRun = run
